@@ -100,10 +100,15 @@ let cv_case (f : string array) : string =
   let o = cv_outcome f in
   if not o.Model.o_modelled then "U"
   else
-    Printf.sprintf "n=%d %swire=%s end=%s stray=0" (List.length o.Model.o_reqs)
+    let c14 = Array.exists (fun x -> x = "c14=1") f in
+    Printf.sprintf "n=%d %swire=%s end=%s stray=0%s" (List.length o.Model.o_reqs)
       (String.concat "" (List.map (fun d -> req_str d ^ " ") o.Model.o_reqs))
       (hex o.Model.o_wire)
       (match o.Model.o_end with Model.CClosed -> "closed" | Model.COpen -> "open" | Model.CHang -> "hang")
+      (if c14 then
+         Printf.sprintf " maxalloc=%s panics=0"
+           (Z.to_string (List.fold_left (fun a n -> Z.max a (z_of_n n)) Z.zero o.Model.o_allocs))
+       else "")
 
 let verdict (v : Model.verdict) : string =
   match v with
